@@ -135,26 +135,67 @@ def r2_tagged(prog, rep: Report, fam: Family, mut: Cls, rec: Cls, lines: str):
     rep.rule("C12.R2", "tagged union discipline: every store of a caller-supplied value into the table is dominated by an "
              "isinstance(value, str) test that raises otherwise; record variants reach the store only through "
              "super().<op>(..., r.save()) after an isinstance(r, record_class) test", floor=4)
+    from ..symenv import SymClient, run_sym
+    from ..paths import strip_versions
+
+    class _Facts(SymClient):
+        """user state = frozenset of (term, type term) facts established by isinstance tests on this path; private helpers are
+        followed, so a guard that lives in `_require_str(value)` counts where it is called"""
+
+        def __init__(s_):
+            super().__init__()
+            s_.stores, s_.calls = [], []
+            s_._ver = 0
+
+        def should_inline(s_, func, call, ctx):
+            return func.cls is not None and not func.cls.is_external and func.name.startswith("_") and not func.name.startswith("__")
+
+        def refine(s_, test, state, ctx):
+            s_._ver = state[1]
+            return super().refine(test, state, ctx)
+
+        def decide(s_, term, node, env, user, ctx):
+            if term[0] == "call" and term[1] == "isinstance" and len(term[2]) == 2:
+                fact = (strip_versions(term[2][0]), strip_versions(term[2][1]))
+                yes = s_.pack(env, s_._ver, frozenset(user or ()) | {fact})
+                return ((yes,), (s_.pack(env, s_._ver, user),))
+            return None
+
     for name in ("__setitem__", "insert"):
         f = prog.method(mut, name)
         rep.fn(f)
         val = f.params[2]
 
-        class C(_Guarded):
-            def event(s, kind, node, state, ctx):
-                if kind == "store" and isinstance(node, ast.Subscript) and dotted(node.value) == (f.self_name, lines):
-                    s.stores.append((node.lineno, src(node), (val, "str") in state))
+        class C(_Facts):
+            def on(s, kind, node, env, ver, user, ctx):
+                facts = user or frozenset()
+
+                def is_str(t):
+                    return any(ft == strip_versions(t) and ty in (("free", "str"), ("c", "str")) for ft, ty in facts)
+                if kind == "store" and isinstance(node, ast.Subscript):
+                    base = strip_versions(s.sym(node.value, env, ver, ctx))
+                    if base == ("attr", ("self",), lines):
+                        from ..util import assigned_value
+                        v = assigned_value(node)
+                        vt = s.sym(v, env, ver, ctx) if v is not None else None
+                        if vt == ("p", val):
+                            s.stores.append((node.lineno, src(node), is_str(vt)))
                 if kind == "call" and isinstance(node, ast.Call) and isinstance(node.func, ast.Attribute) \
-                        and node.func.attr in ("insert", "append") and dotted(node.func.value) == (f.self_name, lines):
-                    s.stores.append((node.lineno, src(node), (val, "str") in state))
-                return (state,)
+                        and node.func.attr in ("insert", "append") and node.args:
+                    base = strip_versions(s.sym(node.func.value, env, ver, ctx))
+                    vt = s.sym(node.args[-1], env, ver, ctx)
+                    if base == ("attr", ("self",), lines) and vt == ("p", val):
+                        s.stores.append((node.lineno, src(node), is_str(vt)))
+                return None
         client = C()
-        it = Interp(prog, client)
-        it.run(f, {frozenset()}, mut)
+        it, ex = run_sym(prog, client, f, mut, user=frozenset())
+        if it.unrecognised:
+            rep.unrec("C12.R2", f, "str-only", "; ".join(it.unrecognised))
+            continue
         bad = [s for s in client.stores if not s[2]]
-        raises = any(isinstance(n, ast.Raise) for n in walk_own(f.node))
+        raises = bool(ex.exc)
         if not client.stores:
-            rep.unrec("C12.R2", f, "str-only", "no store into the table found")
+            rep.unrec("C12.R2", f, "str-only", "no store of the caller's value into the table found")
             continue
         rep.check("C12.R2", f, "str-only", not bad and raises, f"`{client.stores[0][1]}` dominated by isinstance({val}, str)",
                   f"`{(bad or client.stores)[0][1]}` stores the caller's value without a dominating isinstance({val}, str) test that raises",
@@ -165,22 +206,23 @@ def r2_tagged(prog, rep: Report, fam: Family, mut: Cls, rec: Cls, lines: str):
         rep.fn(f)
         r = f.params[2]
 
-        class D(_Guarded):
-            def event(s, kind, node, state, ctx):
+        class D(_Facts):
+            def on(s, kind, node, env, ver, user, ctx):
+                facts = user or frozenset()
                 if kind == "call" and isinstance(node, ast.Call) and isinstance(node.func, ast.Attribute) and node.func.attr == name \
                         and isinstance(node.func.value, ast.Call) and src(node.func.value.func) == "super":
-                    guarded = any(k[0] == r and "record_class" in k[1] for k in state)
-                    payload = node.args[-1] if node.args else None
-                    if isinstance(payload, ast.Name):
-                        payload = Flow(ctx.func.node).expand(payload)      # line = r.save(); super().__setitem__(i, line)
-                    saved = isinstance(payload, ast.Call) and isinstance(payload.func, ast.Attribute) and payload.func.attr == "save" \
-                        and src(payload.func.value) == r and not payload.args
-                    idx_ok = len(node.args) == 2 and src(node.args[0]) == f.params[1]
+                    guarded = any(ft == ("p", r) and "record_class" in repr(ty) for ft, ty in facts)
+                    payload = s.sym(node.args[-1], env, ver, ctx) if node.args else None
+                    saved = isinstance(payload, tuple) and payload[0] in ("eff", "mcall") and payload[1] == "save" and payload[2] == ("p", r) \
+                        and not payload[3]
+                    idx_ok = len(node.args) == 2 and s.sym(node.args[0], env, ver, ctx) == ("p", f.params[1])
                     s.calls.append((node.lineno, src(node), guarded and saved and idx_ok))
-                return (state,)
+                return None
         client = D()
-        it = Interp(prog, client)
-        it.run(f, {frozenset()}, rec)
+        it, ex = run_sym(prog, client, f, rec, user=frozenset())
+        if it.unrecognised:
+            rep.unrec("C12.R2", f, "record-only", "; ".join(it.unrecognised))
+            continue
         if not client.calls:
             rep.viol("C12.R2", f, "record-only", f"{name} of the record file does not delegate to super().{name}(index, record.save())",
                      scenario="a record is stored as an object instead of its one-line string: save() writes its repr")
